@@ -29,7 +29,7 @@
 //!    cart RAM contents (*which* bank is C12's subject), nothing else changes.
 
 use crate::emulator::Core;
-use crate::mem::{get_executable_memory_slice, memory_read_byte, memory_write_byte, MemoryAreas};
+use crate::mem::{get_executable_memory_slice, memory_push_word, memory_read_byte, memory_read_word, memory_write_byte, memory_write_word, MemoryAreas};
 use crate::util::json::J;
 use crate::util::pool::{run_pool, Ctx, PoolOpts, PoolResult};
 use crate::util::report::Report;
@@ -350,6 +350,8 @@ const C_HIST1: usize = 8;
 const C_HIST2: usize = 9;
 const C_BASE_PROBES: usize = 10;
 const C_FETCH_PARTIAL: usize = 11;
+const C_WORD_CASES: usize = 12;
+const C_WORD_READS: usize = 13;
 
 struct World {
   sid: usize,
@@ -857,6 +859,87 @@ impl World {
   }
 }
 
+/// digest of every backing array, mapped or not
+fn raw_digest(core: &Core) -> u64 {
+  let mut h = crate::world::Fx::new();
+  h.bytes(&core.memory.video_ram);
+  h.bytes(&core.memory.cart_ram);
+  h.bytes(&core.memory.work_ram);
+  h.bytes(&core.memory.oam_ram);
+  h.bytes(&core.memory.high_ram);
+  h.get()
+}
+
+const WORD_HELPER: [&str; 2] = ["write-word", "push-word"];
+
+impl World {
+  /// The 16-bit store helpers (LD (nn),SP and the interrupt push use `memory_write_word`,
+  /// translated PUSH/CALL/RST use `memory_push_word`) are bus accesses like any other: a word
+  /// stored at `a` must leave the machine exactly as the two byte stores at a and a+1 do, in the
+  /// helper's byte order.  Differential: the same base state, once through the helper and once
+  /// through two byte stores, then the whole address space and every backing array compared.
+  fn word_case(&mut self, env: &Env, ctx: &mut Ctx, a: u16, helper: usize, v: u16) {
+    let lo = (v & 0xFF) as u8;
+    let hi = (v >> 8) as u8;
+    let a1 = a.wrapping_add(1);
+    ctx.count(C_WORD_CASES, 1);
+    let m = mp(&mut self.core);
+    if helper == 0 {
+      memory_write_word(m, a, v);
+    } else {
+      memory_push_word(m, a, v);
+    }
+    let (rom_ok, ram_ok, rb, kb) = guards(&self.core, self.has_ram);
+    let mut obs_a = vec![0u8; 0x10000];
+    let n = sweep(&mut self.core, &mut obs_a, &self.base_obs, rom_ok, ram_ok);
+    ctx.count(C_PROBES, n);
+    let raw_a = raw_digest(&self.core);
+    self.dirty |= a < 0x8000 || a1 < 0x8000;
+    self.restore(env, ctx);
+    let m = mp(&mut self.core);
+    if helper == 0 {
+      memory_write_byte(m, a, lo);
+      memory_write_byte(m, a1, hi);
+    } else {
+      memory_write_byte(m, a1, hi);
+      memory_write_byte(m, a, lo);
+    }
+    let (rom_ok2, ram_ok2, rb2, kb2) = guards(&self.core, self.has_ram);
+    let mut obs_b = vec![0u8; 0x10000];
+    let n = sweep(&mut self.core, &mut obs_b, &self.base_obs, rom_ok2, ram_ok2);
+    ctx.count(C_PROBES, n);
+    let raw_b = raw_digest(&self.core);
+    let banks_differ = (rom_ok, ram_ok, rb, kb) != (rom_ok2, ram_ok2, rb2, kb2);
+    if obs_a != obs_b || raw_a != raw_b || banks_differ {
+      let o = if obs_a != obs_b { first_diff(&obs_a, &obs_b) } else { a as usize };
+      let what = if obs_a != obs_b { "an address reads differently after the word store than after the two byte stores" } else if banks_differ { "the selected banks differ" } else { "a backing array (a bank not mapped at the moment) differs" };
+      let key = format!("C10 {}={}+{} probe={} kind=differs-from-byte-stores", WORD_HELPER[helper], cls_name(region(a)), cls_name(region(a1)), cls_name(region(o as u16)));
+      let hist = [(a, lo), (a1, hi)];
+      ctx.violation(&key, || self.detail(env, &hist, o, format!("{:02X} (after byte stores {:04X}<-{:02X}, {:04X}<-{:02X} in the helper's order)", obs_b[o], a, lo, a1, hi), obs_a[o], self.base_obs[o], what));
+    }
+    self.dirty |= a < 0x8000 || a1 < 0x8000;
+    self.restore(env, ctx);
+  }
+
+  /// `memory_read_word(a)` against the two byte reads, every address, in the base state.
+  fn word_reads(&mut self, env: &Env, ctx: &mut Ctx) {
+    let m = mp(&mut self.core);
+    for a in 0..=0xFFFFu16 {
+      let a1 = a.wrapping_add(1);
+      if !self.has_ram && ((0xA000..0xC000).contains(&a) || (0xA000..0xC000).contains(&a1)) {
+        continue;
+      }
+      ctx.count(C_WORD_READS, 1);
+      let want = memory_read_byte(m as *const MemoryAreas, a) as u16 | (memory_read_byte(m as *const MemoryAreas, a1) as u16) << 8;
+      let got = memory_read_word(m, a);
+      if got != want {
+        let key = format!("C10 read-word={}+{} kind=differs-from-byte-reads", cls_name(region(a)), cls_name(region(a1)));
+        ctx.violation(&key, || self.detail(env, &[], a as usize, format!("{:04X}", want), (got & 0xFF) as u8, self.base_obs[a as usize], &format!("memory_read_word returned {:04X}", got)));
+      }
+    }
+  }
+}
+
 fn world_for<'a>(slot: &'a mut Option<World>, env: &Env, sid: usize) -> &'a mut World {
   let stale = match slot {
     Some(w) => w.sid != sid,
@@ -1009,7 +1092,61 @@ pub fn run(tier: &str) -> i32 {
   let space2 = format!("{} set-ups x (base state + {} boundary addresses x 2 values as first write) x ({} x 2 second writes), both writes fully probed; fetch view compared in the base state and after every first write", n_act, nb, nb);
   let c2 = rep.add_stage("pair+fetch", &space2, r2);
 
-  let sum = |i: usize| c1[i] + c2[i];
+  // ---- stage 3: the 16-bit helpers against byte accesses
+  let wtargets: Vec<u16> = {
+    let mut t: Vec<u16> = Vec::new();
+    for b in env.bset.iter() {
+      t.push(b.wrapping_sub(1));
+      t.push(*b);
+    }
+    let low: &[u16] = if thorough { &[0xE, 0xF, 0x0] } else { &[0xFF] };
+    for a in 0..=0xFFFFu16 {
+      if low.contains(&(a & if thorough { 0xF } else { 0xFF })) {
+        t.push(a);
+      }
+    }
+    t.sort();
+    t.dedup();
+    t
+  };
+  let wvalues: Vec<u16> = if thorough { vec![0xEA03, 0x0A55] } else { vec![0xEA03] };
+  let nt = wtargets.len() as u64;
+  let chunk_t = 16u64;
+  let per_setup3 = (nt + chunk_t - 1) / chunk_t + 1;
+  let r3: PoolResult = run_pool(
+    n_act * per_setup3,
+    &PoolOpts { chunk: 1, bitmap_bits: 16 * 1024, samples_per_child: 0, ..PoolOpts::default() },
+    |_| None::<World>,
+    |slot, case, ctx| {
+      let sid = env.active[(case / per_setup3) as usize];
+      let k = case % per_setup3;
+      let w = world_for(slot, &env, sid);
+      if k == 0 {
+        w.word_reads(&env, ctx);
+        return;
+      }
+      let lo = (k - 1) * chunk_t;
+      for i in lo..(lo + chunk_t).min(nt) {
+        let a = wtargets[i as usize];
+        if !w.has_ram && ((0xA000..0xC000).contains(&a) || (0xA000..0xC000).contains(&a.wrapping_add(1))) {
+          continue;
+        }
+        for v in wvalues.iter() {
+          for h in 0..2 {
+            w.word_case(&env, ctx, a, h, *v);
+          }
+        }
+      }
+    },
+    |case, how| {
+      let sid = env.active[(case / per_setup3) as usize];
+      (format!("C10 word-access crash={}", how), J::obj().set("case", J::obj().set("setup", J::s(env.setups[sid].name)).set("target_chunk", J::u(case % per_setup3))))
+    },
+  );
+  let space3 = format!("{} set-ups x {} word targets (both sides of every boundary address, every address at the end{} of a {}) x {} values x {{memory_write_word, memory_push_word}}: state after the helper against the state after the two byte stores (all 65536 addresses read, every backing array digested); memory_read_word against two byte reads at all 65536 addresses", n_act, nt, if thorough { " or start" } else { "" }, if thorough { "16-byte line" } else { "256-byte page" }, wvalues.len());
+  let c3 = rep.add_stage("word-accesses", &space3, r3);
+
+  let sum = |i: usize| c1[i] + c2[i] + c3[i];
   rep.evaluations = sum(C_PROBES);
   rep.cov("write_probe_pairs_compared", J::u(sum(C_PROBES)));
   rep.cov("writes_executed_and_probed", J::u(sum(C_WRITES)));
@@ -1023,6 +1160,8 @@ pub fn run(tier: &str) -> i32 {
   rep.cov("fetch_states_without_romN_window", J::u(sum(C_FETCH_PARTIAL)));
   rep.cov("fetch_start_offset_pairs_decided", J::u(sum(C_FETCH_BYTES)));
   rep.cov("fetch_rule", J::s("for every start a in ROM, WRAM, HRAM and every i of the returned slice, slice[i] is compared with the byte memory_read_byte(a+i) returned in the sweep of the same state; a slice that is exactly the tail (same host pointer + offset, same end) of a slice already compared is decided by that comparison and only counted"));
+  rep.cov("word_store_cases_compared_with_byte_stores", J::u(c3[C_WORD_CASES]));
+  rep.cov("word_reads_compared_with_byte_reads", J::u(c3[C_WORD_READS]));
   rep.cov("world_rebuilds", J::u(sum(C_REBUILDS)));
   rep.cov("setups", J::Arr(env.active.iter().map(|i| J::s(env.setups[*i].name)).collect()));
   rep.cov("values", J::Arr(env.values.iter().map(|v| J::s(format!("{:02X}", v))).collect()));
